@@ -70,7 +70,8 @@ func ToV3WithLoader(doc2 *openapi2.T, loader *openapi3.Loader, location *url.URL
 		}
 	}
 
-	if paths := doc2.Paths; len(paths) != 0 {
+	// paths is a required member, also when it is empty
+	if paths := doc2.Paths; paths != nil {
 		doc3.Paths = openapi3.NewPathsWithCapacity(len(paths))
 		for path, pathItem := range paths {
 			r, err := ToV3PathItem(doc2, doc3.Components, pathItem, doc2.Consumes)
